@@ -76,6 +76,13 @@ def run(ck):
         return
     ringcheck.run(ck, quick)
     sysmodel.run_for(ck, "C03")
+    # growth of a thread's queue at queue level ("none lost across a switch to a larger buffer"): the C02 machinery on the
+    # configurations without shrink requests - the consumer/producer interleavings inside prepare_read() (empty check, load of `next`,
+    # re-check of the old buffer) are not reachable from the system-level yield points
+    import C02
+    grow = [dict(cap=2, max=6, sizes=[2, 5, 7], recs=2, nodes=3, shrink=[1], nshrink=0, xrecs=2),
+            dict(cap=2, max=8, sizes=[1, 3, 9], recs=3, nodes=3, shrink=[1], nshrink=0, xrecs=3)][: (1 if quick else 2)]
+    C02.queue_level(ck, grow, 3 if quick else 30, meta=False)
     # "UBS" = the shadow-Spinlock build: every lock acquisition/release of a frontend thread is a yield point (context registration
     # racing with backend polls)
     qks = ["BB:256:256", "BB:512:512", "UB:256:1024", "UB:128:4096", "UBS:256:1024"]
